@@ -331,6 +331,67 @@ func scale(c *Config) {
 			addNamed("scale_names_roots", tab, []op{insertNodes(n, 2), addEdges(n-1, 0, n/10, n-1, 1, n), q("sort", 0)})
 		}
 	}
+	// ---- copy then mutate at scale: many sinks (star, isolated nodes) or one far sink (path); copy; bulk edges from
+	// the former sinks on ONE side; sort and cycle queries on BOTH; a destructive sort of one side, then the other
+	// side again; finally the consumed graph is re-used.  600 is inside the model's reach.
+	csizes := []int{600, 1000, 10000}
+	if c.Thorough() {
+		csizes = append(csizes, 100000)
+	}
+	for i, n := range csizes {
+		for side := 0; side < 2; side++ {
+			other := 1 - side
+			m := n - 1
+			var ops []op
+			add2 := func(g int, o ...op) { ops = append(ops, at(g, o...)...) }
+			both := func(o ...op) {
+				if (i+side)%2 == 0 {
+					add2(other, o...)
+					add2(side, o...)
+				} else {
+					add2(side, o...)
+					add2(other, o...)
+				}
+			}
+			// star: hub 0 -> 1..m, the m children are sinks; on one side they are chained 1 -> 2 -> ... -> m
+			ops = []op{insertNodes(n, (i+side)%3), addEdges(0, 1, m, 0, 1, 0), {kind: "copy", a: 0, b: 1}}
+			add2(side, addEdges(1, 2, m-1, 1, 1, 0))
+			both(q("sort", 0), q("cycle", 0), q("cycle", m/2), q("children", m/2), q("parents", m/2+1))
+			add2(side, op{kind: "addedge", a: m, b: 0}) // closes 0 -> 1 -> ... -> m -> 0 on that side only
+			both(q("cycle", 0), q("cycle", m), q("sort", 0), q("children", m))
+			add2(other, q("sortd", 0))
+			add2(side, q("sort", 0), q("cycle", m/2), q("sortd", 0), q("sort", 0))
+			add2(other, q("sort", 0), op{kind: "addedge", a: m, b: 0}, q("sort", 0), q("cycle", 0))
+			add("scale_copy_star", n, ops)
+			// quick tier: at 10^4 the path is mutated on the copy only, the isolated nodes on the original only
+			doPath := c.Thorough() || n < 10000 || side == 1
+			doRoots := c.Thorough() || n < 10000 || side == 0
+			// path 0 -> ... -> n-1 with the one sink n-1; the copy (or the original) is closed to a ring, opened again,
+			// then the former sink gets 100 new children
+			ops = append(path(n, (i+side+1)%3), op{kind: "copy", a: 0, b: 1})
+			add2(side, op{kind: "addedge", a: n - 1, b: 0})
+			both(q("sort", 0), q("cycle", n/2), q("cycle", n-1), q("children", n-1))
+			add2(side, op{kind: "rmedge", a: n - 1, b: 0}, q("reindex", n-1), addNodes(n, 100, 1, 0), addEdges(n-1, n, 100, 0, 1, 0))
+			both(q("sort", 0), q("children", n-1), q("cycle", n-1))
+			add2(side, q("sortd", 0))
+			both(q("sort", 0), q("children", n-1), q("children", n/2))
+			if doPath {
+				add("scale_copy_path", n+100, ops)
+			}
+			// n isolated nodes (every node is a sink and a root); one side becomes a path; both sorted; the other side is
+			// consumed, then this side; the consumed graph is re-used for the reversed path
+			ops = []op{insertNodes(n, (i+side+2)%3), {kind: "copy", a: 0, b: 1}}
+			add2(side, addEdges(0, 1, n-1, 1, 1, 0))
+			both(q("sort", 0), q("cycle", n/2), q("parents", n/2))
+			add2(other, q("sortd", 0))
+			add2(side, q("sort", 0), q("sortd", 0), q("sort", 0), addEdges(1, 0, n-1, 1, 1, 0), q("sort", 0), q("children", n/2), q("cycle", 0),
+				op{kind: "addedge", a: 0, b: n - 1}, q("sort", 0), q("cycle", 0))
+			add2(other, q("sort", 0), q("children", n/2))
+			if doRoots {
+				add("scale_copy_roots", n, ops)
+			}
+		}
+	}
 	for _, sc := range cases {
 		t0 := time.Now()
 		emit(c, sc.kind, sc.nm, sc.ops)
